@@ -64,11 +64,16 @@ Definition parsable (t : str) : bool :=
   valid t && strict_chars t && match all_codes (to_list t) with Some g => group_ok g | None => false end.
 
 (* AnsiSetting.get_initial_param: the AnsiParam of the first ';'-item, if any *)
+(* as repaired (F60): only decimal digits, blanks around them tolerated - int() alone would also accept a sign, underscores
+   and non-ASCII digits *)
 Definition initial_code (t : str) : option N :=
   match split_char SEMI t with
-  | s :: _ => match parse_int s with
-              | Some z => if (0 <=? z)%Z then (let c := Z.to_N z in if is_param c then Some c else None) else None
-              | None => None end
+  | s :: _ => let s' := strip_ws s in
+              if negb (is_nil s') && forallb is_digit s' then
+                match parse_int s' with
+                | Some z => if (0 <=? z)%Z then (let c := Z.to_N z in if is_param c then Some c else None) else None
+                | None => None end
+              else None
   | [] => None
   end.
 
